@@ -1163,6 +1163,7 @@ def dispatch (line : String) : String :=
       | "ocfw" => some runOcfw
       | "ocfr" => some runOcfr
       | "ocfd" => some (pure "rust-judged")
+      | "ocfx" => some (pure "rust-judged")
       | _ => none
     match p with
     | none => s!"bad-case unknown stream {cmd}"
